@@ -267,7 +267,10 @@ def gen_case(rng, family=None):
         from . import eng_c06
 
         sub = eng_c06.gen_face_case(rng, "quick") if rng.random() < 0.4 else eng_c06.gen_simple_case(rng, "quick")
-        return {"kind": "general", "c06": sub}
+        # half of the general cases take the lazy route (inputs chunked as the C06 case says, result
+        # computed with dask's real synchronous scheduler, which is deterministic): the dask-only code
+        # (boundary-chunk merge, map_overlap wrapper, re-chunking) must not depend on the hash seed either
+        return {"kind": "general", "c06": sub, "lazy": rng.random() < 0.5}
     raise ValueError(family)
 
 
@@ -318,6 +321,20 @@ def _res_digest(res):
     if isinstance(res, (list, tuple)):
         return ["seq", [_res_digest(v) for v in res]]
     return ["lit", repr(res)]
+
+
+def _declared_chunks(res):
+    """block structure a lazy result announces (part of the outcome of a lazy general case)"""
+    import xarray as xr
+
+    if isinstance(res, xr.DataArray):
+        ch = res.variable.chunks
+        return None if ch is None else [list(map(int, c)) for c in ch]
+    if isinstance(res, dict):
+        return [[k, _declared_chunks(v)] for k, v in res.items()]
+    if isinstance(res, (list, tuple)):
+        return [_declared_chunks(v) for v in res]
+    return None
 
 
 def _comodo_ds(spec):
@@ -547,6 +564,20 @@ def execute(spec, pi=0):
                 ds = worlds.build_ds(sub["gspec"])
                 grid = worlds.build_grid(ds, sub["gspec"])
                 da, da2 = eng_c06.build_inputs(sub, ds)
+                if spec.get("lazy"):
+                    import dask
+
+                    da = da.chunk({d: tuple(c) for d, c in (sub.get("chunks") or {}).items()})
+                    if da2 is not None:
+                        da2 = da2.chunk({d: tuple(c) for d, c in (sub.get("chunks2") or {}).items()})
+                    if sub.get("lazy_ds"):
+                        lds = ds.chunk({d: tuple(c) for d, c in sub["lazy_ds"].items() if d in ds.dims})
+                        grid = worlds.build_grid(lds, sub["gspec"])
+                    res = eng_c06.call_op(grid, sub["op"], da, da2, sub.get("vector"))
+                    declared = _declared_chunks(res)
+                    with dask.config.set(scheduler="synchronous"):
+                        res = eng_c06.compute_all([res])[0]
+                    return ["ok", _res_digest(res), declared]
                 res = eng_c06.call_op(grid, sub["op"], da, da2, sub.get("vector"), eager=True)
                 res = eng_c06.compute_all([res])[0]
                 return ["ok", _res_digest(res)]
